@@ -90,3 +90,23 @@ package metrics
 //@   ensures msg == nil ==> spawned("(SubscriberPrometheusMetricsDecorator).recordMetrics$1") == old(spawned("(SubscriberPrometheusMetricsDecorator).recordMetrics$1")) [nil-messages-are-ignored]
 //@   ensures msg != nil ==> spawned("(SubscriberPrometheusMetricsDecorator).recordMetrics$1") == old(spawned("(SubscriberPrometheusMetricsDecorator).recordMetrics$1")) + 1 && observedS(ctxOf(msg)) && observedP(ctxOf(msg)) == old(observedP(ctxOf(msg))) [one-counting-goroutine-per-message-and-the-message-is-marked]
 //@   modifies msg.ctx
+
+// ---- the builder: one collector per metric and registry (C20: "also when applied twice") ----
+
+//@ func (PrometheusMetricsBuilder).register
+//@   ghost label REGISTER
+//@   trusted
+//@   maypanic
+//@   ensures result1 == nil ==> (hasdyntype(c, "*prometheus.HistogramVec") ==> hasdyntype(result0, "*prometheus.HistogramVec")) && (hasdyntype(c, "*prometheus.CounterVec") ==> hasdyntype(result0, "*prometheus.CounterVec")) [ASSUMED-the-registry-hands-back-a-collector-of-the-same-kind-the-new-one-or-the-one-registered-before]
+
+//@ func (PrometheusMetricsBuilder).registerHistogramVec
+//@   maypanic
+//@   ensures ncalls(REGISTER) == old(ncalls(REGISTER)) + 1 && sarg(REGISTER, 1, old(ncalls(REGISTER))) == boxed(h) [asks-the-registry-about-this-histogram]
+//@   ensures result1 == nil ==> result0 == unboxptr(sret(REGISTER, 0, old(ncalls(REGISTER))), "prometheus.HistogramVec") [hands-back-the-collector-the-registry-holds-which-is-an-earlier-one-when-the-metric-was-registered-before]
+//@   ensures result1 != nil ==> result0 == nil
+
+//@ func (PrometheusMetricsBuilder).registerCounterVec
+//@   maypanic
+//@   ensures ncalls(REGISTER) == old(ncalls(REGISTER)) + 1 && sarg(REGISTER, 1, old(ncalls(REGISTER))) == boxed(c) [asks-the-registry-about-this-counter]
+//@   ensures result1 == nil ==> result0 == unboxptr(sret(REGISTER, 0, old(ncalls(REGISTER))), "prometheus.CounterVec") [hands-back-the-collector-the-registry-holds-which-is-an-earlier-one-when-the-metric-was-registered-before]
+//@   ensures result1 != nil ==> result0 == nil
